@@ -30,6 +30,12 @@ partial def readVD : Sexp → Option VD
     pure (.el (← readStr tag) as (VDList.ofList (← cs.mapM readVD)))
   | .list [.atom "text", s] => (readStr s).map .text
   | .list [.atom "dtext", .atom g] => g.toNat?.map .dynText
+  -- a dynamic child whose closure returns `&'static str`: not the String specialisation but an ordinary dynamic
+  -- view (two markers) over the two texts "even" / "odd"
+  | .list [.atom "dstr", .atom g] => do
+    let ev : Str := "even".toList.map Char.toNat
+    let od : Str := "odd".toList.map Char.toNat
+    pure (.dynView (← g.toNat?) (VDAlts.ofList [VDList.ofList [.text ev], VDList.ofList [.text od]]))
   | .list (.atom "dview" :: .atom g :: alts) => do
     let alts ← alts.mapM fun
       | .list (.atom "alt" :: vs) => do pure (VDList.ofList (← vs.mapM readVD))
